@@ -720,6 +720,36 @@ func run(r *hk.Run) {
 			r.Sample(map[string]string{"call": "Encode" + m.Name, "message": coqMsg(mv), "bytes": hk.Hex(out)})
 		}
 	}
+	// directed presence patterns: each optional element alone (so it is the LAST element of the message),
+	// and every prefix of the optional list (earlier present, later absent)
+	if wantEnc {
+		for _, m := range msgs {
+			var optIdx []int
+			for i, s := range m.slots {
+				if !s.Mand {
+					optIdx = append(optIdx, i)
+				}
+			}
+			for k, oi := range optIdx {
+				full := wfMessage(r.Rng, m, false, true)
+				alone := make([]*ie, len(full))
+				prefix := make([]*ie, len(full))
+				for i, s := range m.slots {
+					if s.Mand {
+						alone[i], prefix[i] = full[i], full[i]
+					}
+				}
+				alone[oi] = full[oi]
+				for _, pj := range optIdx[:k+1] {
+					prefix[pj] = full[pj]
+				}
+				encCase("wf-directed", m, alone, true)
+				if k > 0 {
+					encCase("wf-directed", m, prefix, true)
+				}
+			}
+		}
+	}
 	nenc := r.N(700, 9000)
 	if !wantEnc {
 		nenc = 0
